@@ -7,6 +7,8 @@
 The crash itself is a BaseException raised out of the operation: everything in memory is
 then discarded by the driver and the databases are reopened through the real DB code.
 '''
+import threading
+
 import electrumx.lib.util as util
 import electrumx.server.storage as storage
 
@@ -27,11 +29,18 @@ class Controller:
         self.enabled = True
         self.fired = None
         self.commit_cb = None         # called with the DB name after every committed batch
+        self.park = None              # {'thread', 'at', 'count', 'parked', 'resume'}: park a job thread before its at-th op
 
     def op(self, kind, detail):
         '''Called BEFORE a durable operation takes effect.  Returns normally or raises.'''
         if not self.enabled:
             return False
+        p = self.park
+        if p is not None and threading.get_ident() == p['thread']:
+            p['count'] += 1
+            if p['count'] == p['at']:
+                p['parked'].set()
+                p['resume'].wait()
         self.count += 1
         self.log.append((self.count, kind, detail))
         if self.crash_at is not None and self.count == self.crash_at:
